@@ -52,7 +52,10 @@ def gen_cases(tier, seed):
                           "full": bool(rng.integers(2)), "store_dense_svecs": bool(rng.integers(2)), "lang": ["C", "Py"][rng.integers(2)],
                           "seed": int(rng.integers(10 ** 6)), "_cost": nu * setup.det3(sm),
                           # the compiled transform has a serial and an OpenMP branch; the result must not depend on the branch or on the number of threads
-                          "use_openmp": bool(rng.integers(2)), "_threads": [1, 2, 3, 5, 7, 16][int(rng.integers(6))]})
+                          "use_openmp": bool(rng.integers(2)), "_threads": [1, 2, 3, 5, 7, 16][int(rng.integers(6))],
+                          # how the dynamical matrices reach the transformer: directly, or as eigen-solutions (the first usage in the class docstring and what
+                          # RandomDisplacements.run_d2f does); random periodic constants are indefinite, so negative eigenvalues (unstable modes) are plentiful
+                          "input": ["dm", "eig_numpy", "eig_phonopy"][int(rng.integers(3))]})
     small = [n for n in crystals.SMALL if crystals.natoms(n) <= 6]
     for k in range(24 if tier == "quick" else 160):
         name = small[rng.integers(len(small))]
@@ -121,7 +124,22 @@ def run_case(c):
         obs["threads_%d" % c.get("_threads", 2)] = 1
         cp = d2f.commensurate_points
         ph.run_qpoints(cp, with_dynamical_matrices=True)
-        d2f.dynamical_matrices = ph.get_qpoints_dict()["dynamical_matrices"]
+        dms = np.array(ph.get_qpoints_dict()["dynamical_matrices"])
+        route = c.get("input", "dm")
+        if route == "dm":
+            d2f.dynamical_matrices = dms
+        else:
+            if route == "eig_numpy":
+                sol = [np.linalg.eigh(d_) for d_ in dms]
+                ev, evec = np.array([s_[0] for s_ in sol]), np.array([s_[1] for s_ in sol])
+            else:
+                ph.run_qpoints(cp, with_eigenvectors=True)
+                qd = ph.get_qpoints_dict()
+                fr = np.array(qd["frequencies"]) / ph.unit_conversion_factor
+                ev, evec = np.sign(fr) * fr ** 2, np.array(qd["eigenvectors"])
+            obs["roundtrip_negative_eigenvalues"] = int((ev < -1e-8 * max(np.abs(ev).max(), 1e-300)).sum())
+            d2f.create_dynamical_matrices(np.array(ev, dtype="double", order="C"), np.array(evec, dtype="c16", order="C"))
+        obs["roundtrip_input_" + route] = 1
         d2f.run(lang=c["lang"])
         got = d2f.force_constants
         want = fc if c["full"] else fc[p2s]
@@ -129,7 +147,7 @@ def run_case(c):
         obs["roundtrip_" + c["lang"]] = 1
         obs["roundtrip_full" if c["full"] else "roundtrip_compact"] = 1
         if not err <= 1e-9 * max(scale, 1e-300):
-            viol.append({"kind": "roundtrip", "msg": "FC -> D(q_c) -> FC differs by %.3e (scale %.3e)" % (err, scale), "lang": c["lang"], "full": c["full"], "model": c["model"], "N": N})
+            viol.append({"kind": "roundtrip", "msg": "FC -> D(q_c) -> FC differs by %.3e (scale %.3e), dynamical matrices handed over as %s" % (err, scale, route), "lang": c["lang"], "full": c["full"], "model": c["model"], "N": N, "input": route})
         multi = pr.get_smallest_vectors()[1]
         mm = int(np.max(multi[..., 0])) if multi.ndim == 3 else int(np.max(multi))
         obs["ws_multiplicity_gt1"] = int(mm > 1)
